@@ -1,0 +1,197 @@
+//! Verification seams.  Only compiled with `--cfg similar_verif`.
+//!
+//! Everything in here is thread-local and inert unless a verification
+//! harness arms it on the current thread.  Nothing in this module is part
+//! of the public API of the crate.
+#![allow(missing_docs)]
+
+use std::cell::{Cell, RefCell};
+use std::hash::{BuildHasher, Hasher};
+
+use crate::DiffOp;
+
+// ---- H1: virtual clock ---------------------------------------------------
+
+thread_local! {
+    static CLOCK: RefCell<Option<Box<dyn FnMut() -> bool>>> = RefCell::new(None);
+}
+
+/// Installs (or removes) the oracle that answers every deadline probe made
+/// on this thread while a deadline is present.
+pub fn set_clock(f: Option<Box<dyn FnMut() -> bool>>) {
+    CLOCK.with(|c| *c.borrow_mut() = f);
+}
+
+/// Consulted by `deadline_exceeded` when a deadline is present.
+pub(crate) fn clock_probe() -> Option<bool> {
+    CLOCK.with(|c| c.borrow_mut().as_mut().map(|f| f()))
+}
+
+// ---- H2: compaction swap counter / repair switch ---------------------------
+
+thread_local! {
+    static SWAPS: Cell<u64> = Cell::new(0);
+    static SWAP_REPAIR: Cell<bool> = Cell::new(false);
+}
+
+/// Arms or disarms the repair of carried indices after a compaction swap.
+pub fn set_swap_repair(on: bool) {
+    SWAP_REPAIR.with(|c| c.set(on));
+}
+
+/// Returns the number of swaps since the last call and resets the counter.
+pub fn take_swaps() -> u64 {
+    SWAPS.with(|c| c.replace(0))
+}
+
+/// Called right after `ops.swap(first, first + 1)` in the compaction code.
+pub(crate) fn after_swap(ops: &mut [DiffOp], first: usize) {
+    SWAPS.with(|c| c.set(c.get() + 1));
+    if !SWAP_REPAIR.with(|c| c.get()) {
+        return;
+    }
+    let (a, b) = (ops[first], ops[first + 1]);
+    match (a, b) {
+        (
+            DiffOp::Delete {
+                old_index, old_len, ..
+            },
+            DiffOp::Insert {
+                new_index, new_len, ..
+            },
+        ) => {
+            ops[first] = DiffOp::Delete {
+                old_index,
+                old_len,
+                new_index,
+            };
+            ops[first + 1] = DiffOp::Insert {
+                old_index: old_index + old_len,
+                new_index,
+                new_len,
+            };
+        }
+        (
+            DiffOp::Insert {
+                new_index, new_len, ..
+            },
+            DiffOp::Delete {
+                old_index, old_len, ..
+            },
+        ) => {
+            ops[first] = DiffOp::Insert {
+                old_index,
+                new_index,
+                new_len,
+            };
+            ops[first + 1] = DiffOp::Delete {
+                old_index,
+                old_len,
+                new_index: new_index + new_len,
+            };
+        }
+        _ => {}
+    }
+}
+
+// ---- H3: hash seams ----------------------------------------------------------
+
+thread_local! {
+    static HASH_SEED: Cell<Option<u64>> = Cell::new(None);
+    static SCRAMBLE: Cell<Option<u64>> = Cell::new(None);
+}
+
+/// Pins (or unpins) the seed of the hash maps the crate builds on this thread.
+pub fn set_hash_seed(seed: Option<u64>) {
+    HASH_SEED.with(|c| c.set(seed));
+}
+
+/// Picks (or clears) the permutation applied by [`scramble`].
+pub fn set_scramble(code: Option<u64>) {
+    SCRAMBLE.with(|c| c.set(code));
+}
+
+/// A `BuildHasher` with a harness-chosen seed.  Unarmed it draws a fresh
+/// random seed from the standard library, like `RandomState` would.
+#[derive(Clone, Copy, Debug)]
+pub struct SeededState(u64);
+
+impl SeededState {
+    pub fn current() -> SeededState {
+        match HASH_SEED.with(|c| c.get()) {
+            Some(seed) => SeededState(seed),
+            None => SeededState(
+                std::collections::hash_map::RandomState::new()
+                    .build_hasher()
+                    .finish(),
+            ),
+        }
+    }
+}
+
+impl BuildHasher for SeededState {
+    type Hasher = SeededHasher;
+
+    fn build_hasher(&self) -> SeededHasher {
+        SeededHasher(self.0 ^ 0x9e37_79b9_7f4a_7c15)
+    }
+}
+
+/// Simple seeded multiply/rotate hasher (not for production use).
+#[derive(Clone, Copy, Debug)]
+pub struct SeededHasher(u64);
+
+impl Hasher for SeededHasher {
+    fn write(&mut self, bytes: &[u8]) {
+        for &b in bytes {
+            self.0 = (self.0 ^ u64::from(b))
+                .wrapping_mul(0x0000_0100_0000_01b3)
+                .rotate_left(23);
+        }
+    }
+
+    fn finish(&self) -> u64 {
+        let mut x = self.0;
+        x ^= x >> 33;
+        x = x.wrapping_mul(0xff51_afd7_ed55_8ccd);
+        x ^= x >> 33;
+        x = x.wrapping_mul(0xc4ce_b9fe_1a85_ec53);
+        x ^= x >> 33;
+        x
+    }
+}
+
+/// Applies the armed permutation to a vector collected from a hash map,
+/// standing in for "any iteration order".  Unarmed: identity.
+///
+/// For up to 8 elements `code` selects the `code % len!`-th permutation in
+/// the factorial number system; above that it rotates by `code % len` and
+/// reverses when `code / len` is odd.
+pub(crate) fn scramble<T>(v: &mut Vec<T>) {
+    let code = match SCRAMBLE.with(|c| c.get()) {
+        Some(code) => code,
+        None => return,
+    };
+    let len = v.len();
+    if len < 2 {
+        return;
+    }
+    if len <= 8 {
+        let mut k = code;
+        let mut pool: Vec<T> = std::mem::take(v);
+        let mut fact: u64 = (1..=len as u64).product();
+        k %= fact;
+        for remaining in (1..=len as u64).rev() {
+            fact /= remaining;
+            let idx = (k / fact) as usize;
+            k %= fact;
+            v.push(pool.remove(idx));
+        }
+    } else {
+        let rot = (code % len as u64) as usize;
+        v.rotate_left(rot);
+        if (code / len as u64) & 1 == 1 {
+            v.reverse();
+        }
+    }
+}
